@@ -15,8 +15,9 @@ def build_map(config, after=None):
     `after(memory_map)` is called once the first len(regs) - config["late"] registers are in the
     map: a multiplexer may be constructed on a map that is still being filled."""
     from amaranth_soc.memory import MemoryMap
-    mm = hw.construct(MemoryMap, addr_width=config["aw"], data_width=config["dw"],
-                      alignment=config["al"])
+    mm = hw.construct(MemoryMap, **hw.spelled(config.get("omit"), {"alignment": 0},
+                                              addr_width=config["aw"], data_width=config["dw"],
+                                              alignment=config["al"]))
     placed = []
     skipped = 0
     cut = len(config["regs"]) - int(config.get("late") or 0)
@@ -49,9 +50,11 @@ class MuxWorld(World):
                        "CSR initiator (seeded open-loop agent)")
     fault_kinds = ("abort", "gap", "rw_same_cycle", "unmapped_access", "byzantine_raw",
                    "nonconforming_access", "registers_added_after_multiplexer_was_constructed",
-                   "elaborated_while_still_being_populated", "read_and_write_woven")
+                   "elaborated_while_still_being_populated", "read_and_write_woven",
+                   "domain_reset")
     assumptions = (
         "Amaranth's Python RTL simulator executes the elaborated netlist faithfully",
+        "a reset of the clock domain (injected in idle cycles) abandons the open transaction",
         "protocol conformance is decided by the tracker in models/regfile.py from the property "
         "text; data of accesses it does not accept is left unchecked (strobe exactness and "
         "zero-when-idle are checked on every cycle regardless)",
@@ -107,7 +110,7 @@ class MuxWorld(World):
         return {"dw": dw, "aw": aw, "al": al, "regs": regs, "ov": ov, "ov2": ov2, "mode": mode,
                 "hwseed": rng.bits(32),
                 "late": rng.range(1, max(1, len(regs))) if (regs and rng.chance(0.12)) else 0,
-                "mid_elab": int(rng.chance(0.5))}
+                "mid_elab": int(rng.chance(0.5)), "omit": int(rng.chance(0.3))}
 
     def gen_ops(self, rng, config, prop):
         ops = []
@@ -116,6 +119,7 @@ class MuxWorld(World):
         target = rng.range(60, 160)
         cycles = 0
         mode = config["mode"]
+        p_rst = rng.choice([0, 0, 0.1])
         while cycles < target:
             k = rng.below(100)
             if mode == "raw" or (mode == "mixed" and k < 25):
@@ -124,7 +128,7 @@ class MuxWorld(World):
                 cycles += 1
             elif k < 35:
                 n = rng.range(1, 2)
-                ops.append({"k": "idle", "n": n})
+                ops.append({"k": "idle", "n": n} if not rng.chance(p_rst) else {"k": "reset"})
                 cycles += n
             elif mode == "proto" and k < 45:
                 # conforming access to an arbitrary (possibly unmapped) address: only first
@@ -159,7 +163,8 @@ class MuxWorld(World):
         def make(m_):
             made.append(hw.must_accept(
                 "C04" if "C04" in props else "C05", f"csr.Multiplexer(shadow_overlaps={config['ov']})",
-                csr.Multiplexer, m_, shadow_overlaps=config["ov"]))
+                csr.Multiplexer, m_, **hw.spelled(config.get("omit"), {"shadow_overlaps": None},
+                                                  shadow_overlaps=config["ov"])))
             if config.get("late") and config.get("mid_elab"):
                 # API order: the multiplexer is elaborated once before the map is complete
                 hw.elaborate_once(made[-1])
@@ -176,7 +181,8 @@ class MuxWorld(World):
                                                             shadow_overlaps=config["ov2"])))
             dut2 = made[1]
             duts.append((dut2, placed2))
-        sim = hw.build_sim(hw.make_top(*[d for d, _ in duts]))
+        top, rst = hw.make_top_with_reset(*[d for d, _ in duts])
+        sim = hw.build_sim(top)
 
         specs = [RegSpec(i, s, e, w, acc in ("r", "rw"), acc in ("w", "rw"))
                  for i, (reg, s, e, w, acc) in enumerate(placed)]
@@ -219,6 +225,12 @@ class MuxWorld(World):
                             for d, pl in duts:
                                 p.set(pl[i][0].element.r_data, v)
                 e = model.step(addr, rs, ws, wd, r_vals)
+                p.set(rst, int(tag == "reset"))
+                if tag == "reset":
+                    # fault: the domain is reset in an idle cycle, possibly in the middle of a
+                    # transaction, which is thereby abandoned
+                    model._break()
+                    stats.fault("domain_reset")
                 # ---- observe --------------------------------------------------------------
                 bus_r = p.get(dut.bus.r_data)
                 obs = [bus_r]
@@ -360,6 +372,8 @@ class MuxWorld(World):
                 yield dict(op, data=1)
         elif op.get("k") == "idle" and op.get("n", 1) > 1:
             yield dict(op, n=1)
+        elif op.get("k") == "reset":
+            yield {"k": "idle", "n": 1}
 
     def shrink_config(self, config, ops):
         regs = config["regs"]
